@@ -38,14 +38,9 @@ class GridInterpolationVariationalStrategy(_VariationalStrategy):
             grid_diff = float(grid_bounds[i][1] - grid_bounds[i][0]) / (grid_size - 2)
             grid[:, i] = torch.linspace(grid_bounds[i][0] - grid_diff, grid_bounds[i][1] + grid_diff, grid_size)
 
-        inducing_points = torch.zeros(int(pow(grid_size, len(grid_bounds))), len(grid_bounds))
-        prev_points = None
-        for i in range(len(grid_bounds)):
-            for j in range(grid_size):
-                inducing_points[j * grid_size**i : (j + 1) * grid_size**i, i].fill_(grid[j, i])
-                if prev_points is not None:
-                    inducing_points[j * grid_size**i : (j + 1) * grid_size**i, :i].copy_(prev_points)
-            prev_points = inducing_points[: grid_size ** (i + 1), : (i + 1)]
+        # All grid points, in the order in which Interpolation enumerates them (the first dimension varies slowest):
+        # the j-th inducing value must belong to the j-th inducing point
+        inducing_points = torch.cartesian_prod(*[grid[:, i] for i in range(len(grid_bounds))]).reshape(-1, len(grid_bounds))
 
         super(GridInterpolationVariationalStrategy, self).__init__(
             model, inducing_points, variational_distribution, learn_inducing_locations=False
